@@ -5,10 +5,10 @@
      faithful = /repo as it is         -> the statement is REFUTED three times (three recorded defects)
      fixed    = with build/proposed-fixes/C12-1..3.diff -> C12_main, the full statement, is proved.
    `table_after fx mt prod ops` is the webhooks table after ANY sequence of register(bearer|custom|none) /
-   delete / notify(per-url outcome) / restart operations from the empty table; `prod` says whether the
+   delete / notify(per-url outcome) / restart / rejected-request operations from the empty table; `prod` says whether the
    production HTTP client or an injected one performs the calls. *)
 From Coq Require Import ZArith List Bool.
-From BHS Require Import Webhook WebhookProofs.
+From BHS Require Import Webhook WebhookProofs WebhookOracleProofs.
 Import ListNotations.
 Open Scope Z_scope.
 
@@ -60,6 +60,13 @@ Theorem C12_failing_streak : forall mt prod evs tb u r, 1 <= mt -> table_ok mt t
     Z.of_nat (length (posts_to u (snd (notify_seq fixed mt prod evs tb)))) = Z.min n (mt - r_errors r).
 Proof. exact failing_streak_fixed. Qed.
 
+(* The executable spec oracle that judges the implementation's observed behaviour step by step raises no alarm
+   on any run of the repaired model (urls 0..3 = the ones the harness queries after every step). *)
+Theorem C12_oracle_accepts_repaired : forall mt prod ops, 1 <= mt ->
+  Forall (fun o => match o with OpRegister u _ _ _ => In u universe | _ => True end) ops ->
+  oracle mt prod ops (fst (run_fixed mt prod ops)) = [].
+Proof. exact oracle_accepts_fixed. Qed.
+
 (* The code as it is violates the statement - three independent witnesses (vm_compute). *)
 (* max_tries = 3, register, one 503: inactive with count 1 (Webhook.MaxTries is 0 after the reload) *)
 Theorem C12_maxtries_refuted : ~ C12_statement faithful.
@@ -85,6 +92,7 @@ Print Assumptions C12_main.
 Print Assumptions C12_main_notify.
 Print Assumptions C12_invariant.
 Print Assumptions C12_failing_streak.
+Print Assumptions C12_oracle_accepts_repaired.
 Print Assumptions C12_maxtries_refuted.
 Print Assumptions C12_lastemit_refuted.
 Print Assumptions C12_noauth_refuted.
